@@ -620,6 +620,7 @@ package main
 // foreground session of that user - by exactly one - and a disabled contact on 'me' is always kept offline.
 //@ func (t *Topic) subscriptionReply(asChan bool, msg *ClientComMessage) (err error)
 //@   requires [C10] t != nil && msg != nil && msg.Sub != nil && msg.sess != nil
+//@   requires [C10] counts_nonneg: forall u types.Uid :: (u in t.perUser) ==> t.perUser[u].online >= 0
 //@   requires [C06] owner_cached: (t.owner in t.perUser) ==> !t.perUser[t.owner].deleted && !t.perUser[t.owner].isChan && t.cat == types.TopicCatGrp
 //@   requires [C06] owner_known: t.owner == types.ParseUserId(msg.AsUser) ==> (t.owner in t.perUser)
 //@   requires [C06] owner_grp_only: t.cat != types.TopicCatGrp ==> (forall u types.Uid :: (u in t.perUser) ==> !hasO(t.perUser[u].modeGiven))
